@@ -96,7 +96,20 @@ def run(tier, seed):
                 else:
                     args.pop('synthetic')
                 T.run('perm_invariance', args, key=(test, r, pname))
-    return T.result(bound='%d tests (12 gridded, 6 catalog-based) x %d generated inputs (3 regions, random rates, 2-11 observed '
+    # ---- cells re-ordered IN THE FORECAST FILE (cells of a region together with the forecast's rates): the rate looked up
+    #      for any point of a row's box must be that row's rate whatever the order of the cell blocks in the file
+    from . import oracles_io  # noqa: F401  (registers 'forecast_ascii')
+    block = [[i, j] for i in range(3) for j in range(2)]
+    orders = [block, block[::-1], [block[k] for k in (3, 0, 5, 1, 4, 2)]]
+    for _ in range(2 if tier == 'quick' else 12):
+        b = list(block)
+        rng.shuffle(b)
+        orders.append(b)
+    for oi, cells in enumerate(orders):
+        for lon0, lat0, dh in (('-125.4', '31.5', '0.1'), ('10', '40', '0.5')):
+            T.run('forecast_ascii', {'lon0': lon0, 'lat0': lat0, 'dh': dh, 'cells': cells, 'mags': ['4.95', '5.05'], 'dmag': '0.1',
+                                     'rate_seed': oi}, key=('file-cell-order', oi, lon0))
+    return T.result(bound='forecast files with the cell blocks in %d orders; ' % len(orders) + '%d tests (12 gridded, 6 catalog-based) x %d generated inputs (3 regions, random rates, 2-11 observed '
                           'events with repeats, 3-6 synthetic catalogs with empty ones and ties) x re-orderings of events / synthetic '
                           'catalogs / cells+rates / all' % (len(oc.ALL_C20_TESTS), n_inputs),
                     judged_tests=sorted(judged), skipped_tests=skipped)
